@@ -159,7 +159,7 @@ def pure_ast_safe(text, mode):
 
 
 def enumerate_ops(src: str, *, nk=3, nks=2, forms=('src', 'ast', 'fst'), opts=({},), kinds=None, max_slice_len=4,
-                  tree=None, extra=()):
+                  tree=None, extra=(), lc_texts=('lc', None)):
     """All operation instances of the alphabet enabled on `src` (a Module program)."""
     tree = tree or ast.parse(src)
     want = lambda k: kinds is None or k in kinds  # noqa: E731
@@ -246,7 +246,7 @@ def enumerate_ops(src: str, *, nk=3, nks=2, forms=('src', 'ast', 'fst'), opts=({
             for text in ('doc', 'two\nlines', None):
                 yield {'op': 'put_docstr', 'path': p, 'text': text}
         if want('line_comment') and isinstance(node, ast.stmt):
-            for text in ('lc', None):
+            for text in lc_texts:
                 yield {'op': 'put_line_comment', 'path': p, 'text': text}
             for fld in ('orelse', 'finalbody'):
                 if getattr(node, fld, None) and not (fld == 'orelse' and isinstance(node, ast.If)
